@@ -485,6 +485,10 @@ class ProcessPoolDownloader:
             self._worker_queue.put(SHUTDOWN_SIGNAL)
         for worker in self._workers:
             worker.join()
+        # The downloader can be started again: do not signal these workers
+        # a second time on the next shutdown (the extra signals would stay in
+        # the queue and stop the workers of the start after that).
+        self._workers = []
 
 
 class ProcessPoolTransferFuture(BaseTransferFuture):
